@@ -124,6 +124,9 @@ type Path struct {
 	ctxs       []*ctxState
 	threads    []threadRec
 	env        map[string]string
+	envSym     []envEntry // variables set under a symbolic name
+	envOther   string     // value an unlisted variable may hold ("" = unlisted variables are unset)
+	envReads   []envEntry // unlisted variables the code asked for and found set
 	closed     map[chan value]bool
 	cch, och   chan value
 	stdoutV    []value
@@ -369,6 +372,11 @@ func (p *Path) decide(c *Term) bool {
 }
 
 // choice forks n ways without consulting the solver.
+type envEntry struct {
+	name value
+	val  string
+}
+
 func (p *Path) choice(n int) int {
 	if n <= 0 {
 		p.abort(abInfeasible, "choice(0)")
